@@ -1,5 +1,5 @@
 (* C08 - CTAP1/U2F APDU parsing is total and follows the U2F raw message format. *)
-From Ctap Require Import Base Schema Wire Typed Procs Inst Tables ProcTables Finite FramingP WireP C18P U2fP FrameP ObByteTables.
+From Ctap Require Import Base Schema Wire Typed Procs Inst Tables ProcTables Finite FramingP WireP C18P U2fP FrameP ObByteTables FnShapes Shapes ObShapeU2fParse.
 Local Open Scope string_scope.
 Local Open Scope Z_scope.
 
@@ -73,6 +73,11 @@ Proof. exact generated_byte_tables. Qed.
 Example c08_ex : u2f_decision 0 2 7 (repeat 5 64 ++ [2; 9; 9])%list = U2fOk (U2fAuthenticate "CheckOnly" (repeat 5 32) (repeat 5 32) [9; 9]).
 Proof. vm_compute. reflexivity. Qed.
 
+(* tie to the source for the hand-modelled procedural code: the bodies of these functions, as regenerated from
+   /repo now, have the shape (literals, operators, calls, control flow, constants) the model was written against *)
+Theorem c08_modelled_functions_unchanged_u2f_parse : shapes_hold fn_shapes shapes_u2f_parse = true.
+Proof. exact generated_shapes_u2f_parse. Qed.
+
 Eval vm_compute in "ASSUMPTIONS c08_decision_table". Print Assumptions c08_decision_table.
 Eval vm_compute in "ASSUMPTIONS c08_never_panics". Print Assumptions c08_never_panics.
 Eval vm_compute in "ASSUMPTIONS c08_class_first". Print Assumptions c08_class_first.
@@ -84,3 +89,4 @@ Eval vm_compute in "ASSUMPTIONS c08_generated_control_table". Print Assumptions 
 Eval vm_compute in "ASSUMPTIONS c08_frame_short". Print Assumptions c08_frame_short.
 Eval vm_compute in "ASSUMPTIONS c08_frame_extended". Print Assumptions c08_frame_extended.
 Eval vm_compute in "ASSUMPTIONS c08_raw_apdu_decision". Print Assumptions c08_raw_apdu_decision.
+Eval vm_compute in "ASSUMPTIONS c08_modelled_functions_unchanged_u2f_parse". Print Assumptions c08_modelled_functions_unchanged_u2f_parse.
